@@ -308,6 +308,41 @@ let () =
         let w = bytes_of inp in
         let toks = List.map (function L [r; k] -> (n_of_int (ai r), nat_of_int (ai k)) | _ -> failwith "tok") toks in
         Printf.printf "validate %s\n" (if validate prog (n_of_int (ai sc)) (ab bol) w toks then "OK" else "FAIL")
+      | L [A "stream"; fuel; L inputs] ->
+        let f = field "stream_prog" c in
+        let op_of = function
+          | L [A "begin"; s] -> OBegin (n_of_int (ai s))
+          | L [A "push"; s] -> OPush (n_of_int (ai s))
+          | L [A "pop"] -> OPop
+          | L [A "top"] -> OTop
+          | L [A "less"; A "const"; k] -> OLess (LConst (nat_of_int (ai k)))
+          | L [A "less"; A "minus"; k] -> OLess (LMinus (nat_of_int (ai k)))
+          | L [A "unput"; bs] -> OUnput (bytes_of bs)
+          | L [A "input"; k] -> OInput (nat_of_int (ai k))
+          | L [A "more"] -> OMore
+          | L [A "setbol"; b] -> OSetBol (ab b)
+          | L [A "return"; v] -> OReturn (n_of_int (ai v))
+          | L [A "terminate"] -> OTerminate
+          | _ -> failwith "op" in
+        let acts = List.map (function L (r :: ops) -> (ai r, List.map op_of ops) | _ -> failwith "acts") (items (List.hd (field "acts" f))) in
+        let eofs = List.map (function L (r :: ops) -> (ai r, List.map op_of ops) | _ -> failwith "eofs") (items (List.hd (field "eofs" f))) in
+        let sp = { sp_prog = prog;
+                   sp_acts = (fun r -> match List.assoc_opt (int_of_n r) acts with Some o -> o | None -> []);
+                   sp_eof = (fun s -> List.assoc_opt (int_of_n s) eofs);
+                   sp_lineno = ab (List.hd (field "lineno" f)) } in
+        let evs = sm_run (nat_of_int (ai fuel)) sp (sm_init (List.map bytes_of inputs)) in
+        let fnv bs = List.fold_left (fun h b -> ((h lxor (int_of_n b)) * 16777619) land 0xFFFFFFFF) 2166136261 bs in
+        List.iter (function
+            | ETok (r, text, sc, line, bol) ->
+              Printf.printf "T %d %d %d %d %d %d\n" (int_of_n r) (List.length text) (fnv text) (int_of_n sc - 1) (int_of_z line) (if bol then 1 else 0)
+            | EIn None -> Printf.printf "I 0\n"
+            | EIn (Some ch) -> Printf.printf "I %d\n" (int_of_n ch)
+            | ETop s -> Printf.printf "P %d\n" (int_of_n s - 1)
+            | ERet v -> Printf.printf "R %d\n" (int_of_n v)
+            | EEof s -> if sp.sp_eof s <> None then Printf.printf "E %d\n" (int_of_n s - 1)
+            | EFatal k -> Printf.printf "F %d\n" (int_of_n k)
+            | EStuck -> Printf.printf "S\n") evs;
+        Printf.printf "END\n"
       | L [A "kinds"] ->
         Printf.printf "kinds %s\n" (String.concat " " (List.map (fun r ->
             match rule_kind r with
